@@ -69,7 +69,7 @@ func (p program) spec() *hlib.RunSpec {
 	case "limit":
 		rs.Opts.MaxDuration = 5 * time.Second
 		rs.Opts.MaxIterations = uint64(len(p.iters))
-	case "cancel":
+	case "cancel", "cancel-in-setup":
 		rs.Opts.MaxDuration = 5 * time.Second
 	}
 	rs.ScenarioFn = func(t *f1testing.T) f1testing.RunFn {
@@ -80,6 +80,9 @@ func (p program) spec() *hlib.RunSpec {
 				vrt.LogQuiet(fmt.Sprintf("setup-cleanup %d", k))
 				act(t, c)
 			})
+		}
+		if p.ending == "cancel-in-setup" {
+			hlib.CancelCurrentRun() // the caller interrupts while setup is still executing
 		}
 		act(t, p.setup)
 		vrt.LogQuiet("setup-end")
@@ -259,7 +262,7 @@ func check(r *hlib.Rec, p program) {
 	if cleanupFails && (!res.Failed || res.Err == nil) {
 		r.Fail("C06/verdict", key("failed-teardown-passes"), fmt.Sprintf("a setup cleanup fails but Failed()=%v Error()=%v", res.Failed, res.Err), input)
 	}
-	if !setupFailed && len(bodies) == 0 && p.ending != "cancel" {
+	if !setupFailed && len(bodies) == 0 && p.ending != "cancel" && p.ending != "cancel-in-setup" {
 		r.Fail("C06/no-iterations", key("none"), "setup succeeded but no iteration ran", input)
 	}
 	r.Distinct(classOf(p) + "/" + p.ending + "/" + p.mode)
@@ -346,7 +349,7 @@ func suiteSetup(full bool) hlib.Suite {
 			for _, sc := range lists([]string{bOK, bFail, bFailNow, bPanic}, 2) {
 				for _, its := range bodies {
 					for _, mode := range []string{"constant", "users"} {
-						for _, ending := range []string{"duration", "limit", "cancel", "timeout"} {
+						for _, ending := range []string{"duration", "limit", "cancel", "timeout", "cancel-in-setup"} {
 							for _, conc := range []int{1, 2} {
 								if !r.Mine() {
 									continue
